@@ -59,7 +59,9 @@ def findBias (s : ModSt) (name : String) : Option (Bias Float) :=
 def modOps (s : ModSt) (ln : Nat) (t : List String) : Option (ModSt × List String) :=
   match t with
   | "m.new" :: n :: _ => some ({ natoms := nOfTok n, saved := s.saved, savedExt := s.savedExt }, [])
+  | "m.savestr" :: _ => some ({ s with m := sysFlush s.m }, [])
   | "m.save" :: prefix_ :: _ =>
+    let s := { s with m := sysFlush s.m }
     some ({ s with saved := (prefix_, s.m) :: s.saved.filter (·.1 != prefix_),
                    savedExt := (prefix_, s.exts) :: s.savedExt.filter (·.1 != prefix_) }, [])
   | ["m.opt", "it", n] => some ({ s with m := { s.m with clock := { s.m.clock with it := iOfTok n, itRestart := iOfTok n } } }, [])
